@@ -76,7 +76,11 @@ fn pair_run(ch: &Ch, scenario: u32) -> ExecResult {
         let clock = ctx::ManualClock::new();
         let root = ctx::test_root(&clock);
         let sh = sh2;
-        let (pa, pb) = pipe::pair();
+        // scenario 4 needs a link that can be congested
+        let (pa, pb) = if scenario == 4 { pipe::pair_bounded(24) } else { pipe::pair() };
+        let drain = zksync_concurrency::sync::watch::channel(false).0;
+        let drain = &drain;
+        let clock = &clock;
         let c0 = nv::VQueue::new(&root, 1, limiter::Rate::INF);
         let a0 = nv::VQueue::new(&root, 1, limiter::Rate::INF);
         let c2 = nv::VQueue::new(&root, 2, limiter::Rate::INF);
@@ -131,6 +135,48 @@ fn pair_run(ch: &Ch, scenario: u32) -> ExecResult {
                     st.write_all(ctx, &tag(0x70, 3)).await?;
                     st.flush(ctx).await?;
                     drop(st);
+                    sh.lock().unwrap().done += 1;
+                    anyhow::Ok(())
+                });
+            } else if scenario == 4 {
+                // a write and a flush are cancelled (deadline) while the link is congested by a sub-stream
+                // the peer does not read; once the link drains, the flush is retried and the sub-stream is
+                // used again: the peer must receive everything the successful writes accepted, in order
+                s.spawn(async move {
+                    use zksync_concurrency::time;
+                    let mut victim = c0.open(ctx).await?;
+                    let mut blocker = c2.open(ctx).await?;
+                    victim.write_all(ctx, &tag(0x10, 5)).await?;
+                    let r = blocker.write_all(&ctx.with_timeout(time::Duration::seconds(10)), &tag(0x90, 200)).await;
+                    let r2 = victim.flush(&ctx.with_timeout(time::Duration::seconds(10))).await;
+                    { let mut g = sh.lock().unwrap(); g.log.push(format!("blocker write cancelled {} victim flush cancelled {}", r.is_err(), r2.is_err())); }
+                    drain.send_replace(true);
+                    drop(blocker);
+                    victim.flush(ctx).await?;
+                    victim.write_all(ctx, &tag(0x40, 6)).await?;
+                    victim.flush(ctx).await?;
+                    let mut rh = victim.close_write();
+                    let got = read_to_end_half(ctx, &mut rh).await?;
+                    if !got.is_empty() {
+                        fail(sh, format!("the victim sub-stream received {got:?} although its peer wrote nothing"));
+                    }
+                    { let mut g = sh.lock().unwrap(); g.done += 1; if r2.is_err() { g.open_max[3] = 1; } }
+                    anyhow::Ok(())
+                });
+                s.spawn(async move {
+                    let mut victim = a0.open(ctx).await?;
+                    let mut blocker = a2.open(ctx).await?;
+                    zksync_concurrency::sync::wait_for(ctx, &mut drain.subscribe(), |d| *d).await?;
+                    let got_b = read_to_end_stream(ctx, &mut blocker).await?;
+                    if got_b != tag(0x90, 200)[..got_b.len().min(200)] {
+                        fail(sh, format!("the blocker sub-stream delivered {got_b:?}, which is not a prefix of what was written on it"));
+                    }
+                    drop(blocker);
+                    let got = read_to_end_stream(ctx, &mut victim).await?;
+                    let want = [tag(0x10, 5), tag(0x40, 6)].concat();
+                    if got != want {
+                        fail(sh, format!("the peer of a sub-stream whose flush was cancelled under congestion and retried later read {got:?}; the successful writes were {want:?} (bytes accepted before the cancelled flush are lost / reordered)"));
+                    }
                     sh.lock().unwrap().done += 1;
                     anyhow::Ok(())
                 });
@@ -225,7 +271,18 @@ fn pair_run(ch: &Ch, scenario: u32) -> ExecResult {
             }
             anyhow::Ok(())
         }).await };
-        matches!(sched::drive(&idle, fut, |_| false).await, sched::Driven::Stuck)
+        matches!(
+            sched::drive(&idle, fut, |k| {
+                if scenario == 4 && k <= 6 {
+                    // nothing can move: time passes (deadlines of the cancelled operations)
+                    clock.advance(zksync_concurrency::time::Duration::seconds(11));
+                    return true;
+                }
+                false
+            })
+            .await,
+            sched::Driven::Stuck
+        )
     });
     let g = sh.lock().unwrap();
     let mut violation = g.violation.clone();
@@ -236,7 +293,7 @@ fn pair_run(ch: &Ch, scenario: u32) -> ExecResult {
     if violation.is_none() && g.open_max[2] > 2 {
         violation = Some(format!("{} sub-streams of capability 2 were open simultaneously, the announced limits are 2 (connect) and 3 (accept)", g.open_max[2]));
     }
-    ExecResult { obs: fx_hash(&(g.done, g.open_max, &g.log)), violation, nontrivial: true, witnesses: vec![("two_streams_open_at_once", (g.open_max[2] >= 2) as u64)] }
+    ExecResult { obs: fx_hash(&(g.done, g.open_max, &g.log)), violation, nontrivial: true, witnesses: vec![("two_streams_open_at_once", (g.open_max[2] >= 2) as u64), ("flush_cancelled_under_congestion", g.open_max[3] as u64)] }
 }
 
 fn mux_handshake(accept: &[(u64, u32)], connect: &[(u64, u32)]) -> Vec<u8> {
@@ -443,14 +500,16 @@ pub fn run(args: &Args) -> Report {
     let mut capped = false;
     let mut wit2 = 0;
     let mut witf = 0;
-    for sc in [3u32, 1, 2] {
-        let cfgx = ExploreCfg::new(&format!("mux-pair[scenario {sc}]"), bound, budget.saturating_sub(t0.elapsed()) / if sc == 3 { 4 } else { 2 });
+    let mut wit4 = 0;
+    for sc in [4u32, 3, 1, 2] {
+        let cfgx = ExploreCfg::new(&format!("mux-pair[scenario {sc}]"), bound, budget.saturating_sub(t0.elapsed()) / match sc { 4 => 5, 3 => 4, _ => 2 });
         let st = explore(&cfgx, |ch| pair_run(ch, sc));
         execs += st.execs;
         points += st.choice_points;
         distinct += st.distinct_obs;
         capped |= st.capped;
         wit2 += *st.witnesses.get("two_streams_open_at_once").unwrap_or(&0);
+        wit4 += *st.witnesses.get("flush_cancelled_under_congestion").unwrap_or(&0);
         rep.absorb("c14", &st, json!({"kind": "pair", "scenario": sc}));
         stats.push(st.to_json());
     }
@@ -475,8 +534,8 @@ pub fn run(args: &Args) -> Report {
         rep.absorb("c14", &st, json!({"kind": "flood", "flood": i}));
         stats.push(st.to_json());
     }
-    if rep.violations.is_empty() && (wit2 == 0 || witf == 0) {
-        rep.machinery_errors.push(format!("vacuous: two_streams_open_at_once={wit2} mux_blocked_by_flow_control={witf}"));
+    if rep.violations.is_empty() && (wit2 == 0 || witf == 0 || wit4 == 0) {
+        rep.machinery_errors.push(format!("vacuous: two_streams_open_at_once={wit2} mux_blocked_by_flow_control={witf} flush_cancelled_under_congestion={wit4}"));
     }
     rep.coverage = json!({
         "states": execs,
@@ -485,6 +544,7 @@ pub fn run(args: &Args) -> Report {
         "evaluations": execs,
         "distinct_nontrivial": distinct.max(2),
         "samples": [
+            {"harness": "pair scenario 4", "case": "link bounded to 24 bytes in flight; the client buffers 5 bytes on sub-stream A, writes 200 bytes on sub-stream B that the peer does not read (write cancelled by its deadline), flushes A under a deadline (cancelled while the link is congested), then the peer drains B, the client flushes A again, writes 6 more bytes and closes: the peer must read the 5 + 6 bytes"},
             {"harness": "pair scenario 1", "case": "client writes 20 bytes on stream 1 of the single reusable stream, server reads 10 and drops it; stream 2 must deliver exactly its own 5 bytes"},
             {"harness": "flood", "case": "raw peer: handshake, OPEN, 40 DATA frames of 8 bytes; application holds the stream without reading"},
         ],
@@ -493,6 +553,7 @@ pub fn run(args: &Args) -> Report {
         "exhaustive": !capped,
         "capped_by_time_budget": capped,
         "witness_two_streams_open_at_once": wit2,
+        "witness_flush_cancelled_under_congestion": wit4,
         "witness_mux_blocked_by_flow_control": witf,
         "explorations": stats,
     });
